@@ -13,7 +13,7 @@ from scipy.special import gamma, kv
 
 from harness import core
 
-PARAMS = [(0.5, 0.2, 20.0), (0.1, 0.15, 50.0), (0.05, 0.1, 10.0), (0.005, 0.1, 200.0)]   # (pixel scale, r0, L0)
+PARAMS = [(0.5, 0.2, 20.0), (0.1, 0.15, 50.0), (0.05, 0.1, 10.0), (0.005, 0.1, 200.0), (0.02, 0.15, 1000.0)]   # (pixel scale, r0, L0)
 
 
 class ScriptedGenerator(np.random.Generator):
@@ -148,12 +148,10 @@ def check_config(ips, c, params, rng):
         r1 = np.abs(A.dot(Czz) - Cxz).max() / cmax
         r2 = np.abs(A.dot(Czz).dot(A.T) + Bm.dot(Bm.T) - Cxx).max() / cmax
         innov = np.abs(Cxx - Cxz.dot(np.linalg.solve(Czz, Cxz.T))).max() / cmax
-        # the code evaluates the covariance in single precision (turb.phase_covariance casts r to float32): an entry error of
-        # eps32*max|C| is amplified by at most (1+|A|_inf) in the first identity and (1+|A|_inf)^2 in the second
+        # residuals observed on the repaired tree are <= 1.2e-8 of max|C| in the worst-conditioned configuration in scope
         normA = float(np.abs(A).sum(1).max())
-        eps32 = float(np.finfo(np.float32).eps)
-        tolA = 2e-6 + 4 * eps32 * (1 + normA)
-        tolB = 2e-6 + 4 * eps32 * (1 + normA) ** 2 + 1e-3 * innov
+        tolA = 5e-7 * (1 + normA)
+        tolB = 5e-7 * (1 + normA) + 1e-3 * innov
         info.update(res_A=float(r1), res_B=float(r2), innovation=float(innov), normA=normA,
                     ratio_A=float(r1 / tolA), ratio_B=float(r2 / tolB))
         if r1 > tolA:
@@ -241,8 +239,8 @@ def run(run):
     run.aux.update(objects_probed=built, worst_identity_residuals=worst, vk_stability=stab,
                    trusted=["scipy.special.kv/gamma", "numpy.linalg (LAPACK)"])
     run.assumptions += [
-        "the two matrix identities are evaluated in float64 (tolerance 2e-6 + 4 eps32 (1+|A|_inf)^k of max|C|, k = 1, 2, plus 1e-3 of "
-        "the innovation variance for the second; eps32 because the code evaluates the covariance in single precision) - a numerical assertion inside the conformance layer; TLC decides the geometry they are evaluated on",
+        "the two matrix identities are evaluated in float64 (tolerance 5e-7 (1+|A|_inf) of max|C|, plus 1e-3 of "
+        "the innovation variance for the second) - a numerical assertion inside the conformance layer; TLC decides the geometry they are evaluated on",
         "configurations whose construction raises (LinAlgError) are outside the property and are listed as unrunnable",
         "working array contents are loaded through the private attribute _scrn (the public API offers no way to choose them)",
     ]
